@@ -98,6 +98,17 @@ var c19Inputs = []struct {
 	{"number", `42.5`, true},
 	{"true", `true`, true},
 	{"null", `null`, true},
+	{"members named like sub-commands and flags", `{"version": "1.2.3", "help": {"url": "x"}, "input": "f.json", "ast": 1, "h": true, "v": [1], "file": null, "s": "str", "n": 2, "true": "yes", "null": 0}`, true},
+	{"negative integer", `-5`, true},
+	{"negative fraction after white space", "  -0.25\n", true},
+	{"negative number with an exponent", `-1e3`, true},
+	{"negative zero", `-0`, true},
+	{"zero", `0`, true},
+	{"false", `false`, true},
+	{"empty string", `""`, true},
+	{"string that is a minus sign", `"-"`, true},
+	{"number with a capital exponent and a sign", `1E+2`, true},
+	{"array starting with a negative number", `[-1, -2.5e-3, "-"]`, true},
 	{"empty object", `{}`, true},
 	{"empty array", ` [ ] `, true},
 	{"unicode", `{"a": "é😀\u2028", "é": [1]}`, true},
@@ -222,7 +233,9 @@ func c19(r *mon.Run) {
 	fixedGood := []string{"a.b[2].c", "arr", "sort(arr)", "objs[*].n", "sort_by(objs, &n)[0].s", "@", "*", "keys(@)", "length(@)", "[0]", "a.b[?@ > `1`]", "to_string(@)", "s", "n", "t", "z", "{x: n, y: s}", "[n, s, `null`]",
 		"'<raw>&'", "`{\"k\": [1, 2]}`", "a.b[::-1]", "not_null(z, s)", "type(n)", "max_by(objs, &n)", "join(', ', objs[*].s)", "a || b", "!z", "n < `0`", "\"é\"", "a.\"b\"[0]", "sum(arr)", "avg(arr)", "arr[1:]", "merge(@, {x: `1`})", "keys(@)[0]", "sort(keys(@))", "'50%'", "'%d'", "{p: '%s', q: s}",
 		"to_string(o)", "to_string(arr)", "to_string(@)", "'\\u003e'", "'\\u0026amp; \\u003c'", "keys(o)", "to_string(to_string(@))", "join('', arr)", "to_string(objs[*].s)", "o", "t", "[a, s, t]", "to_string(t)", "`\"\\\\u003c\"`", "to_string(`\"<&>\"`)", "to_string(['<', '>', '&'])",
-		"join('\t', arr[*].to_string(@))", "contains(s, '\n')", "'a\tb\nc\rd'", "`\"tab\\there\"`", "[`1`,\n\t`2`]\r\n", "{k:\n'v\tw'}", "\"a\" ||\n 'multi\nline'", "sum(a)", "avg(arr)", "avg(objs[*].n)", "sum(objs[*].n)", "[n, s, t, b, c]", "max(a)", "a[0]", "sum(a) == t", "objs[?n > `0.5`].n | [0]", "[[[[[[[[[[[[[[[[[[[[[[[[[[[[[[[[[[[[[[[[@]]]]]]]]]]]]]]]]]]]]]]]]]]]]]]]]]]]]]]]]", "{a:{a:{a:{a:{a:{a:{a:{a:{a:{a:{a:{a:{a:{a:{a:{a:{a:{a:{a:{a:{a:{a:{a:{a:{a:{a:{a:{a:{a:{a:{a:{a:{a:{a:{a:{a:@}}}}}}}}}}}}}}}}}}}}}}}}}}}}}}}}}}}}", "a", "a.a", "[0]", "type(@)", "length(@)", "reverse(@)", "starts_with(@, '[')", "foo.bar", "sort(@)", "join(',', @)", "[0]", "@ == '[]'", "\"max:Infinity\"", "contains(a, 'NaN')", "arr[?contains(@, 'NaN')]", "objs[?s == 'NaN'].n", "length(s)", "keys(@)", "arr[0]", "ends_with(s, ', 0)')"}
+		"join('\t', arr[*].to_string(@))", "contains(s, '\n')", "'a\tb\nc\rd'", "`\"tab\\there\"`", "[`1`,\n\t`2`]\r\n", "{k:\n'v\tw'}", "\"a\" ||\n 'multi\nline'", "sum(a)", "avg(arr)", "avg(objs[*].n)", "sum(objs[*].n)", "[n, s, t, b, c]", "max(a)", "a[0]", "sum(a) == t", "objs[?n > `0.5`].n | [0]", "[[[[[[[[[[[[[[[[[[[[[[[[[[[[[[[[[[[[[[[[@]]]]]]]]]]]]]]]]]]]]]]]]]]]]]]]]]]]]]]]]", "{a:{a:{a:{a:{a:{a:{a:{a:{a:{a:{a:{a:{a:{a:{a:{a:{a:{a:{a:{a:{a:{a:{a:{a:{a:{a:{a:{a:{a:{a:{a:{a:{a:{a:{a:{a:@}}}}}}}}}}}}}}}}}}}}}}}}}}}}}}}}}}}}", "a", "a.a", "[0]", "type(@)", "length(@)", "reverse(@)", "starts_with(@, '[')", "foo.bar", "sort(@)", "join(',', @)", "[0]", "@ == '[]'", "\"max:Infinity\"", "contains(a, 'NaN')", "arr[?contains(@, 'NaN')]", "objs[?s == 'NaN'].n", "length(s)", "keys(@)", "arr[0]", "ends_with(s, ', 0)')",
+		// words a command-line program might take for a sub-command or a flag value: here they are field names
+		"version", "help", "h", "v", "usage", "completion", "input", "stdin", "file", "filename", "expr", "ast", "true", "false", "null", "test", "run", "env", "list", "get", "jpgo", "version.number", "help || s", "[version, help]", "{version: n, help: s}"}
 	evalErr := []string{"abs('x')", "abs()", "nosuchfn(@)", "arr[::0]", "sort_by(objs, &@)", "length(n)", "[abs(s), n]", "objs[*].abs(s)", "merge(@, `1`)", "to_string(&a)", "sum(a)", "max(`[1, \"a\"]`)"}
 	n := tierPick(r, 4000, 40000)
 	w := mon.Workload{Name: "invocations", N: n, Batch: 50,
@@ -254,7 +267,7 @@ func c19(r *mon.Run) {
 			}
 			ii := rng.Intn(len(c19Inputs))
 			if i%3 == 0 {
-				ii = rng.Intn(25) // favour valid input
+				ii = rng.Intn(36) // favour valid input
 			}
 			in := c19Inputs[ii]
 			channel := []string{"stdin", "file", "missing file", "file through a symbolic link", "/dev/stdin as the file"}[[]int{0, 0, 1, 1, 1, 2, 3, 3, 4}[rng.Intn(9)]]
